@@ -3055,6 +3055,9 @@ func (pc *PeerConnection) generateMatchedSDP(
 		kind := NewRTPCodecType(media.MediaName.Media)
 		direction := getPeerDirection(media)
 		if kind == 0 {
+			// unknown media type: reject in place (RFC 3264 S6), never drop the m-section
+			mediaSections = append(mediaSections, mediaSection{id: midValue, rejected: media})
+
 			continue
 		}
 		if direction == RTPTransceiverDirectionUnknown {
